@@ -771,23 +771,28 @@ func writeCompatibilitySerializers(w *formatting.IndentedWriter, change dsl.Defi
 			p := change.PreviousDefinition().(*dsl.RecordDefinition)
 			for i, field := range p.Fields {
 				tmpVarName := common.FieldIdentifierName(field.Name)
+				// The temporary for a removed or converted field must not hide the parameters of the serializer
+				localVarName := tmpVarName
+				if localVarName == "value" || localVarName == "stream" {
+					localVarName += "_tmp"
+				}
 				if change.FieldRemoved[i] {
 					// Field was removed: Read it and discard, or Write "default" value
 					tmpVarType := common.TypeSyntax(field.Type)
-					fmt.Fprintf(w, "%s %s = {};\n", tmpVarType, tmpVarName)
-					fmt.Fprintf(w, "%s(stream, %s);\n", typeRwFunction(field.Type, write), tmpVarName)
+					fmt.Fprintf(w, "%s %s = {};\n", tmpVarType, localVarName)
+					fmt.Fprintf(w, "%s(stream, %s);\n", typeRwFunction(field.Type, write), localVarName)
 				} else if tc := change.FieldChanges[i]; tc != nil {
 					// Field type change: Handle type conversions
 					if requiresExplicitConversion(tc) {
 						tmpVarType := common.TypeSyntax(tc.OldType())
-						fmt.Fprintf(w, "%s %s = {};\n", tmpVarType, tmpVarName)
+						fmt.Fprintf(w, "%s %s = {};\n", tmpVarType, localVarName)
 
 						if write {
-							writeTypeConversion(w, tc, fmt.Sprintf("value.%s", tmpVarName), tmpVarName, write)
-							fmt.Fprintf(w, "%s(stream, %s);\n", typeRwFunction(tc.OldType(), write), tmpVarName)
+							writeTypeConversion(w, tc, fmt.Sprintf("value.%s", tmpVarName), localVarName, write)
+							fmt.Fprintf(w, "%s(stream, %s);\n", typeRwFunction(tc.OldType(), write), localVarName)
 						} else {
-							fmt.Fprintf(w, "%s(stream, %s);\n", typeRwFunction(tc.OldType(), write), tmpVarName)
-							writeTypeConversion(w, tc, tmpVarName, fmt.Sprintf("value.%s", tmpVarName), write)
+							fmt.Fprintf(w, "%s(stream, %s);\n", typeRwFunction(tc.OldType(), write), localVarName)
+							writeTypeConversion(w, tc, localVarName, fmt.Sprintf("value.%s", tmpVarName), write)
 						}
 					} else {
 						fmt.Fprintf(w, "%s(stream, value.%s);\n", typeRwFunction(tc.OldType(), write), tmpVarName)
